@@ -132,6 +132,15 @@ var SRef = SInt
 func (w *World) sortOf(t types.Type) *Sort {
 	switch u := t.(type) {
 	case *types.Named:
+		if u.Obj().Pkg() != nil && !strings.HasPrefix(u.Obj().Pkg().Path(), modPath) {
+			if _, isIface := u.Underlying().(*types.Interface); isIface {
+				return SRef
+			}
+			if _, isStruct := u.Underlying().(*types.Struct); isStruct {
+				// a struct type of a dependency: an opaque value (A-GJSON etc.)
+				return w.Reg.unint("X_" + mangle(u.Obj().Pkg().Name()) + "_" + u.Obj().Name())
+			}
+		}
 		if st, ok := u.Underlying().(*types.Struct); ok {
 			if !w.isValueStruct(u) {
 				return SRef
